@@ -387,6 +387,28 @@ class Walker:
             return
         if isinstance(st, ast.Pass):
             return
+        if isinstance(st, ast.Raise) and isinstance(st.exc, ast.Name) and self.env.get(st.exc.id, ('x',))[0] == 'phi':
+            # error = A(...) if c1 else B(...) if c2 else None ... raise error: one raise per constructed exception, under
+            # the condition that selects it
+            def leaves(v, conds):
+                if v[0] == 'phi':
+                    yield from leaves(v[2], conds + (('pyif', v[1], True),))
+                    yield from leaves(v[3], conds + (('pyif', v[1], False),))
+                else:
+                    yield v, conds
+            done = True
+            found = []
+            for leaf, conds in leaves(self.env[st.exc.id], ()):
+                if leaf == ('const', None):
+                    continue
+                if leaf[0] == 'call' and leaf[1][0] in ('name', 'attr'):
+                    found.append((ir.show(leaf[1]), conds))
+                else:
+                    done = False
+            if done and found:
+                for exc, conds in found:
+                    self.t.raises.append((exc, self.gen + conds, st.lineno))
+                return
         if isinstance(st, ast.Raise):
             exc = "?"
             if st.exc is not None:
@@ -426,6 +448,24 @@ class Walker:
         if isinstance(st, (ast.Import, ast.ImportFrom)):
             return
         self.unsupported(st, f"statement kind {type(st).__name__} is not modelled")
+
+    def noreturn_helper(self, call):
+        """A call of a helper (method of this class, module-level function) that always raises: -> the exception type."""
+        f = call.func
+        target = None
+        if isinstance(f, ast.Attribute) and isinstance(f.value, ast.Name) and f.value.id in ("self", "cls") and self.fi.cls is not None:
+            target = self.index.lookup_method(self.fi.cls, f.attr)
+        elif isinstance(f, ast.Name) and f.id not in self.env:
+            target = self.fi.module.functions.get(f.id)
+        if target is None or target.node is self.fi.node:
+            return None
+        body = [s for s in target.node.body if not (isinstance(s, ast.Expr) and isinstance(s.value, ast.Constant))]
+        if not body or not isinstance(body[-1], ast.Raise) or body[-1].exc is None:
+            return None
+        if any(isinstance(n, (ast.Return, ast.Yield, ast.YieldFrom)) for n in ast.walk(target.node)):
+            return None
+        e = body[-1].exc
+        return ast.unparse(e.func if isinstance(e, ast.Call) else e)
 
     def exception_type(self, name):
         """`raise helper(...)` / `raise err` where helper is a nested function (or err a local) that builds the exception:
@@ -481,6 +521,9 @@ class Walker:
                     return
                 self.unsupported(st, f"call {ast.unparse(f)} receives the module but cannot be inlined")
                 return
+            nr = self.noreturn_helper(v)
+            if nr is not None:
+                self.t.raises.append((nr, self.gen, st.lineno))
             self.t.calls.append((self.ex(v), self.gen, self.dsl, st.lineno))
             return
         if isinstance(v, ast.YieldFrom) and self.inline_generator(v.value, st):
@@ -558,10 +601,18 @@ class Walker:
         if self.inline_depth <= 0:
             return False
         f = call.func
-        if not (isinstance(f, ast.Attribute) and isinstance(f.value, ast.Name) and f.value.id == "self"):
+        if not isinstance(f, ast.Attribute):
             return False
-        cls = self.fi.cls
-        target = self.index.lookup_method(cls, f.attr) if cls else None
+        recv_ir = None
+        if isinstance(f.value, ast.Name) and f.value.id == "self":
+            cls = self.fi.cls
+            target = self.index.lookup_method(cls, f.attr) if cls else None
+        else:
+            # a private emitting helper of *another* class, called on an object (sub._elaborate_trigger(m)): found by its
+            # name when exactly one class of the package defines it; its `self` is the receiver
+            owners = [c_ for c_ in self.index.all_classes() if c_.method(f.attr) is not None]
+            target = owners[0].method(f.attr) if len(owners) == 1 and f.attr.startswith("_") else None
+            recv_ir = self.ex(f.value) if target is not None else None
         if target is None:
             return False
         params = [p for p in target.params]
@@ -569,6 +620,8 @@ class Walker:
             params = params[1:]
         saved_env, saved_bc, saved_m = dict(self.env), dict(self.bind_ctx), self.m
         new_env = {}
+        if recv_ir is not None:
+            new_env["self"] = recv_ir
         for p, a in zip(params, call.args):
             if self.is_m(a):
                 new_m = p
